@@ -3,6 +3,7 @@ import NmVerif.Index.Transpose
 import NmVerif.Index.Reshape
 import NmVerif.Index.Flip
 import NmVerif.Lemmas.Rearrange
+import NmVerif.Lemmas.RearrangePerm
 /-
   C03 — Rearranging views (reshape, transpose, moveaxis, ...) equal NumPy's result.
   Only property statements (+ non-vacuity examples, counterexamples of known findings) live here.
@@ -343,5 +344,72 @@ theorem expandDims_eq_spec {α : Type} (a : Arr α) (fill : α) (ax : List Int) 
 example : normalizeAxes (([2,3] : Shape).length + ([0,-1] : List Int).length) [0,-1] = some [0,3] ∧ [0,3].Nodup := by decide
 example : (expandDimsView [2,3] [0,-1]).map (·.dst) = some [1,2,3,1] ∧
     dropAxes (fun j => [0,3].contains j) 0 [1,2,3,1] = [2,3] := by decide
+
+/-- **transpose is a permutation of the source elements** (every permutation, positive extents) -/
+theorem transpose_is_permutation {α : Type} (a : Arr α) (fill : α) (ax : List Int) (p : List Nat)
+    (hn : normalizeAxes a.shape.length ax = some p) (hperm : p.Perm (List.range a.shape.length))
+    (ha : Pos a.shape) :
+    ∃ v, transposeView a.shape (some ax) = some v ∧ (v.apply a fill).flat.Perm a.flat := by
+  obtain ⟨hlen, hnd, hlt, _⟩ := perm_range_facts p _ hperm
+  obtain ⟨dst, hdst, hv⟩ := transposeView_some a.shape ax p hn hlen
+  refine ⟨_, hv, ?_⟩
+  have hdl : dst.length = a.shape.length := by simp [mapM_some_length _ _ _ hdst, hlen]
+  simp only [Arr.flat, IxView.apply]
+  refine flat_perm_of_bij a dst (fun d => scatter d p) (fun i => gatherIdx i p)
+    (pos_of_mapM_getElem? _ _ _ ha hdst) ha ?_ ?_
+  · intro d hd
+    have hdlen : d.length = a.shape.length := by rw [← hdl]; exact hd.length_eq
+    refine ⟨?_, gather_scatter d p _ hperm hdlen⟩
+    refine transposed_inShape a.shape dst d _ p hperm hdl (by simp [scatter_length, hdlen]) ?_ ?_ hd
+    · intro k b hk; exact ((mapM_some_get _ _ _ hdst k b hk).1).symm
+    · intro k b hk
+      exact scatter_get d p hnd (by simpa [hdlen] using hlt) (by omega) k b hk
+  · intro i hi
+    exact ⟨gather_inShape a.shape dst i p hperm hdst hi, scatter_gather i p _ hperm hi.length_eq⟩
+
+theorem transpose_default_is_permutation {α : Type} (a : Arr α) (fill : α) (ha : Pos a.shape) :
+    ∃ v, transposeView a.shape none = some v ∧ (v.apply a fill).flat.Perm a.flat := by
+  refine ⟨_, rfl, ?_⟩
+  simp only [Arr.flat, IxView.apply]
+  have hpr : Pos a.shape.reverse := fun x hx => ha x (by simpa using hx)
+  refine flat_perm_of_bij a a.shape.reverse List.reverse List.reverse hpr ha ?_ ?_
+  · intro d hd
+    exact ⟨by simpa using InShape_reverse hd, by simp⟩
+  · intro i hi
+    exact ⟨InShape_reverse hi, by simp⟩
+
+/-- **flip is a permutation of the source elements** (any axes argument) -/
+theorem flip_is_permutation {α : Type} (a : Arr α) (fill : α) (axes : Option (List Int)) (ha : Pos a.shape) :
+    ∃ v, flipView a.shape axes = some v ∧ (v.apply a fill).flat.Perm a.flat := by
+  refine ⟨_, rfl, ?_⟩
+  simp only [Arr.flat, IxView.apply]
+  refine flat_perm_of_bij a a.shape (flipIdx a.shape axes) (flipIdx a.shape axes) ha ha ?_ ?_
+  · intro d hd
+    exact ⟨flipGo_inShape axes 0 _ d hd, flipGo_flipGo axes 0 _ d hd⟩
+  · intro d hd
+    exact ⟨flipGo_inShape axes 0 _ d hd, flipGo_flipGo axes 0 _ d hd⟩
+
+/-- **reshape, flatten, expand_dims, squeeze, atleast_nd keep C order** — whenever one of them yields a view of an
+    array with positive extents, the view's elements in C order are exactly the source's (the identity permutation) -/
+theorem reshape_family_keeps_order {α : Type} (a : Arr α) (fill : α) (v : IxView) (ha : Pos a.shape)
+    (dst : List Int) (ax : List Int) (nd : Nat)
+    (hv : reshapeView a.shape dst = some v ∨ flattenView a.shape = some v ∨ expandDimsView a.shape ax = some v ∨
+          squeezeView a.shape = some v ∨ atleastNdView a.shape nd = some v) :
+    (v.apply a fill).flat = a.flat := by
+  rcases hv with h | h | h | h | h
+  · exact (reshape_elem a fill dst v ha h).2
+  · exact (reshape_elem a fill _ v ha h).2
+  · simp only [expandDimsView, Option.bind_eq_some_iff] at h
+    obtain ⟨s, _, hs⟩ := h
+    exact (reshape_elem a fill _ v ha hs).2
+  · exact (reshape_elem a fill _ v ha h).2
+  · exact (reshape_elem a fill _ v ha h).2
+
+theorem reshape_family_is_permutation {α : Type} (a : Arr α) (fill : α) (v : IxView) (ha : Pos a.shape)
+    (dst : List Int) (ax : List Int) (nd : Nat)
+    (hv : reshapeView a.shape dst = some v ∨ flattenView a.shape = some v ∨ expandDimsView a.shape ax = some v ∨
+          squeezeView a.shape = some v ∨ atleastNdView a.shape nd = some v) :
+    (v.apply a fill).flat.Perm a.flat :=
+  List.Perm.of_eq (reshape_family_keeps_order a fill v ha dst ax nd hv)
 
 end NmVerif.Props.C03
